@@ -393,7 +393,7 @@ def explore(fn, policy=None, max_paths=256, on_path=None):
             tb = traceback.extract_tb(e.__traceback__)
             where = ""
             for fr in reversed(tb):
-                if "/repo/" in fr.filename:
+                if "/tangelo/" in fr.filename and "/verif/" not in fr.filename:
                     where = f"{fr.filename}:{fr.lineno}"
                     break
             rec["error"] = ("escape", f"{e} @ {where}")
@@ -402,7 +402,7 @@ def explore(fn, policy=None, max_paths=256, on_path=None):
             tb = traceback.extract_tb(e.__traceback__)
             where = ""
             for fr in reversed(tb):
-                if "/repo/" in fr.filename:
+                if "/tangelo/" in fr.filename and "/verif/" not in fr.filename:
                     where = f"{fr.filename}:{fr.lineno}"
                     break
             rec["error"] = ("exception", f"{type(e).__name__}: {e} @ {where}")
